@@ -165,6 +165,11 @@ func judge(c Case, w *vkit.W) {
 			w.Fail(c, "not-canonical", fmt.Sprintf("DefaultFormatter(nil, %d, flags subset %#x) = %q, canonical numeral is %q", c.N, c.Flags, out, want))
 		}
 		w.RetainBytes(c, "DefaultFormatter(nil)", out, want) // kept as returned until the next numeral has been formatted
+		if c.N%8 == 3 || c.N < 16 { // the returned bytes belong to the caller
+			if o2, err := roman.DefaultFormatter(nil, n, libFlags(c.Flags)); err == nil {
+				w.Owned(c, "DefaultFormatter(nil)", o2, want, func() ([]byte, error) { return roman.DefaultFormatter(nil, n, libFlags(c.Flags)) })
+			}
+		}
 		if pre, err := roman.DefaultFormatter(append(make([]byte, 0, 192), "n="...), n, libFlags(c.Flags)); err != nil || string(pre) != "n="+want {
 			w.Fail(c, "not-canonical", fmt.Sprintf("DefaultFormatter(\"n=\" with spare capacity, %d, flags subset %#x) = %q, %v; want %q", c.N, c.Flags, pre, err, "n="+want))
 		}
@@ -201,6 +206,9 @@ func judge(c Case, w *vkit.W) {
 			}
 		}
 		w.RetainBytes(c, "MarshalText", b, wantDef)
+		if b2, err := n.MarshalText(); err == nil {
+			w.Owned(c, "MarshalText", b2, wantDef, n.MarshalText)
+		}
 		roundTrip("MarshalText", string(b), c.Default)
 	case "failing-formatter": // replay of phase B2
 		old := roman.Formatter
